@@ -1559,5 +1559,16 @@ func runSkip(c *hx.Ctx) error {
 			runtime.GC() // the bloom readers never close their index file; the finalizer does
 		}
 	}
+	// detached (OBS) layout: one vertical group = 128 filters of 256 KiB per index column and case
+	nDet := 40
+	if c.Tier == "thorough" {
+		nDet = 600
+	}
+	for i := 0; i < nDet; i++ {
+		if err := runBloomDetached(c, r, work); err != nil {
+			return err
+		}
+		runtime.GC()
+	}
 	return nil
 }
